@@ -3,7 +3,7 @@ import json, os, random, shutil, sqlite3
 from . import common, procs, gen
 from .common import Infra
 
-PROCS_ALL = ["p1", "p2", "p3", "w1", "w2"]
+PROCS_ALL = ["p1", "p2", "p3", "w1", "w2", "f1"]
 LAYOUT = {"sep": {"h1": "p1", "h2": "p2", "h3": "p3"}, "same": {"h1": "p1", "h2": "p1", "h3": "p2"}}
 
 
@@ -148,13 +148,32 @@ class Runner:
         if expect is not None:
             self._expect[h] = expect
         self._marker[h] = op.get("table") == "meta"
-        r = self.agent(h).call(cmd="start", h=h, gate=True, gate_on=gate_on or [], op=dict(op, id=1))
+        try:
+            r = self.agent(h).call(_timeout=20, cmd="start", h=h, gate=True, gate_on=gate_on or [], op=dict(op, id=1))
+        except procs.Blocked:
+            return self._blocked(h)
         return self._observe(h, r)
+
+    def _blocked(self, h):
+        """the operation neither returned nor reached its next event within 20 s (e.g. it waits for a lock instead of being
+        refused): recorded as an event the specification has no action for; the agent is killed"""
+        self.emit(h, "blocked")
+        self.parked.pop(h, None)
+        p = LAYOUT[self.layout][h]
+        a = self.agents.pop(p, None)
+        if a is not None:
+            a.kill()
+        self.failed_open.add(h)
+        self.results[h] = {"err": "blocked", "rows": [], "n": 0}
+        return "done"
 
     def step(self, h):
         if h not in self.parked:
             return "done"
-        return self._observe(h, self.agent(h).call(cmd="step", h=h))
+        try:
+            return self._observe(h, self.agent(h).call(_timeout=20, cmd="step", h=h))
+        except procs.Blocked:
+            return self._blocked(h)
 
     def finish(self, h, limit=2000):
         k = None
